@@ -243,6 +243,13 @@ def check_hierarchical(k1: int, k2: int, d1: int, n_ids: int,
     ok = ok and len(post.get_parameter_names()) == n
     s2, g2 = post.evaluateS1(x)
     ok = ok and np.shape(g2) == (n,)
+    # outside the support of the prior (population-level entries above its
+    # upper bound): the gradient still has one entry per parameter
+    xo = x.copy()
+    xo[n - n_top:] = 7.0
+    s3, g3 = post.evaluateS1(xo)
+    ok = ok and np.shape(g3) == (n,)
+    ok = ok and len(post.get_id()) == n
     return bool(ok)
 
 
